@@ -36,6 +36,7 @@ RULE = ("handshakes between a real UdpClient (pinned key) and the real server lo
         "late duplication, reordering). non-trivial = the edited server hello still reaches signature verification, or a "
         "challenge authenticates but carries a wrong token, or a late duplicate hits a promoted connection; distinct by "
         "(attack class, field / op, schedule, seed).")
+RULE += (" " + 'Round-8 addition: the edited server hello may reach the client 0.4-2.3 s after the genuine one was lost (a client that has been waiting, retrying and timing for most of - or longer than - its connect timeout).')
 ASSUMPTIONS = [
     "ECDSA / ECDH / HKDF from `cryptography` are trusted; the attacker holds no private key of the server or client",
     "the client is configured with a pinned server public key (trust-on-first-use clients are outside the property)",
